@@ -463,6 +463,7 @@ Fixpoint in_loop (fuel : nat) (network : option net) (ti : txin) (s : bytes) (st
             _ <- check one ;;
             _ <- check (negb (truthy_int (pi_hash_type st))) ;;
             '(v, s2) <- read_varstr s1 ;;
+            _ <- check (length v =? 4)%nat ;;         (* since afccdfa: a 32-bit little endian integer *)
             in_loop f network ti s2 (set_hash_type st (Some (from_le v)))
           else if t =? 4 then
             _ <- check one ;;
